@@ -19,12 +19,14 @@ def rel(name, types, inp=False, quals=None):
 
 def family(rng, idx):
     """returns (P, monotone?)"""
-    kind = rng.choice(["shortest", "mutual", "mutual", "maxkey", "pareto", "lexmin", "nonmono", "downstream"])
+    kind = rng.choice(["shortest", "mutual", "maxkey", "pareto", "lexmin", "nonmono", "downstream"])
+    if idx < 2:
+        kind = "mutual"          # always present, once with the helper sorting after and once before the subsumptive relation
     dom = {"i": [0, 1, 2], "s": ["a", "b"]}
     if kind == "mutual":
         # the subsumptive relation shares its recursive stratum with a helper relation (mutual recursion through it);
         # helper names sorting before AND after the subsumptive relation (the translator orders relations by name)
-        helper = rng.choice(["a_hop", "z_hop"])
+        helper = "z_hop" if idx % 2 == 0 else "a_hop"
         bound = rng.choice([3, 4])
         rels = [rel("e", ["i", "i"], True), rel("x", ["i", "i"], True), rel("d", ["i", "i"], quals=["btree_delete"]), rel(helper, ["i", "i"])]
         clauses = [{"head": {"rel": "d", "args": [V("x"), N(0)]}, "body": [atom("e", V("x"), ANY), cmp("EQ", V("x"), N(0))]},
